@@ -4,6 +4,8 @@ decodes every stream to the unique code that prefixes it; `Encoder.Init`
 terminates and maps each symbol to its code.
 -/
 import Compress.Prefix.Spec
+import Compress.Proofs.PrefixTablesDecoder
+import Compress.Proofs.PrefixTablesEncoder
 
 namespace Compress.Proofs.PrefixTables
 open Compress Compress.Prefix
@@ -22,19 +24,48 @@ structure GoodCodes (cs : List Code) : Prop where
     up the zero-extended next bits yields `c`'s symbol and length. -/
 theorem decoder_lookup (cs : List Code) (h : GoodCodes cs) (c : Code) (hc : c ∈ cs) (rest : Bits) :
     (Decoder.init cs).lookup (Bits.toNat ((c.word ++ rest).take 32)) = (c.sym, c.len) := by
-  sorry
+  apply decoder_lookup_val cs h.two (fun c hc => (h.lens c hc).2) h.vals h.pf c hc
+  have := (h.lens c hc).2
+  simp only [valueBits] at this
+  rw [word_take c (by omega), Nat.mod_eq_of_lt (h.vals c hc)]
 
 /-- H3 (decoder, stream form): `readSymbol` on a stream that starts with `c`'s
     word returns `c.sym` and leaves exactly the rest. -/
 theorem decoder_readSymbol (cs : List Code) (h : GoodCodes cs) (c : Code) (hc : c ∈ cs) (rest : Bits) :
     (Decoder.init cs).readSymbol (c.word ++ rest) = some (c.sym, rest) := by
-  sorry
+  unfold Decoder.readSymbol
+  have hl := decoder_lookup cs h c hc rest
+  obtain ⟨n, ch1, res, hfold, hcm, hlm, hcb, hmb⟩ := init_fields cs h.two
+  have inv := fill_inv cs h.pf h.vals _ n ((Decoder.init cs).linkMask + 1) ch1 res (by omega)
+  rw [← hfold] at inv
+  have hsz : (Decoder.init cs).chunks.size ≠ 0 := by
+    have := inv.size1
+    have hpos : 0 < 2 ^ (min (maxLen cs) 9) := Nat.two_pow_pos _
+    simp only at this
+    omega
+  have hwl : c.word.length = c.len := ofNat_length _ _
+  have hlen : ¬ (c.word ++ rest).length < (Decoder.init cs).minBits := by
+    rw [hmb, List.length_append, hwl]
+    have := minLen_le cs c hc
+    omega
+  rw [if_neg hsz, if_neg hlen, hl]
+  simp only
+  rw [if_pos (by rw [List.length_append, hwl]; omega)]
+  rw [← hwl, List.drop_left]
 
 /-- H3 (encoder): with distinct 32-bit symbols the collision-free table search
     terminates and the table maps every symbol to its (value, length). -/
 theorem encoder_lookup (cs : List Code) (h2 : 2 ≤ cs.length)
     (hs : symsIncreasing cs = true) (hb : ∀ c ∈ cs, c.sym < 2 ^ 32 ∧ c.val < 2 ^ 27 ∧ 1 ≤ c.len ∧ c.len < 32) :
     ∃ e, Encoder.init cs = some e ∧ ∀ c ∈ cs, e.lookup c.sym = (c.val, c.len) := by
-  sorry
+  have hp := symsIncreasing_pairwise cs hs
+  match cs, h2 with
+  | a :: b :: rest, _ =>
+    simp only [Encoder.init]
+    apply attempt_ok _ hp (fun c hc => ⟨(hb c hc).1, (hb c hc).2.2⟩) 39 _ (numChunksFor_pos _ _ _ (by omega))
+    have := numChunksFor_pos 64 ((a :: b :: rest).length - 1) 1 (by omega)
+    have h39 : (2:Nat) ^ 32 ≤ 2 ^ 39 := by decide
+    calc 2 ^ 32 ≤ 1 * 2 ^ 39 := by omega
+      _ ≤ _ := Nat.mul_le_mul_right _ this
 
 end Compress.Proofs.PrefixTables
